@@ -985,6 +985,25 @@ func (c *Client) reattach() (net.Addr, error) {
 		return nil, err
 	}
 
+	// The protocol of a reattached plugin is subject to the same
+	// AllowedProtocols filter as one announced on a handshake line.
+	protocol := c.config.Reattach.Protocol
+	if protocol == "" {
+		// Default the protocol to net/rpc for backwards compatibility
+		protocol = ProtocolNetRPC
+	}
+	found := false
+	for _, p := range c.config.AllowedProtocols {
+		if p == protocol {
+			found = true
+			break
+		}
+	}
+	if !found {
+		return nil, fmt.Errorf("Unsupported plugin protocol %q. Supported: %v",
+			protocol, c.config.AllowedProtocols)
+	}
+
 	// Create a context for when we kill
 	c.doneCtx, c.ctxCancel = context.WithCancel(context.Background())
 
@@ -1010,11 +1029,7 @@ func (c *Client) reattach() (net.Addr, error) {
 
 	// Set the address and protocol
 	c.address = c.config.Reattach.Addr
-	c.protocol = c.config.Reattach.Protocol
-	if c.protocol == "" {
-		// Default the protocol to net/rpc for backwards compatibility
-		c.protocol = ProtocolNetRPC
-	}
+	c.protocol = protocol
 
 	if c.config.Reattach.Test {
 		c.negotiatedVersion = c.config.Reattach.ProtocolVersion
